@@ -65,7 +65,7 @@ def judge_module(cid, seed, tabs, features=None):
     def walk(n, d):
       for ch in ast.iter_child_nodes(n):
         if isinstance(ch, ast.FunctionDef):
-          defs[ch.name] = ch
+          defs.setdefault(ch.name, []).append(ch)
           depth[id(ch)] = d
           walk(ch, d + 1)
         elif isinstance(ch, ast.Lambda):
@@ -92,8 +92,15 @@ def judge_module(cid, seed, tabs, features=None):
         lam_id = (fn.__kwdefaults__ or {}).get('_id')
         if lam_id is None and fn.__defaults__:
           lam_id = fn.__defaults__[-1]
-      node = lams.get(lam_id) if is_lam else defs.get(fn.__name__)
-      case = '%s/%s' % (cid, ('lam%s' % lam_id) if is_lam else fn.__name__)
+      if is_lam:
+        node = lams.get(lam_id)
+      else:
+        # by the code object's own name and first line: names may be reused and functools.wraps renames
+        cands = defs.get(fn.__code__.co_name, [])
+        first = fn.__code__.co_firstlineno
+        match = [c for c in cands if first in ([c.lineno] + [dd.lineno for dd in c.decorator_list])]
+        node = match[0] if len(match) == 1 else (cands[0] if len(cands) == 1 else None)
+      case = '%s/%s' % (cid, ('lam%s' % lam_id) if is_lam else '%s@%d' % (fn.__code__.co_name, fn.__code__.co_firstlineno))
       if node is None:
         yield {'case': case, 'verdict': 'inconclusive', 'detail': 'oracle node not found'}
         continue
